@@ -41,6 +41,8 @@ def main():
     ap.add_argument("--tier", default="quick")
     ap.add_argument("--skip-tests", action="store_true")
     ap.add_argument("--name", default=None)
+    ap.add_argument("--base", default="HEAD", help="commit of /repo the patch is applied to (default HEAD); an older base is used when a later fix: commit rewrote the lines the patch touches")
+    ap.add_argument("--note", default=None)
     a = ap.parse_args()
     diff = os.path.join(a.seed_out, f"change{a.k}.diff")
     demo = os.path.join(a.seed_out, f"demo{a.k}.py")
@@ -59,8 +61,11 @@ def main():
         meta["agent_notes"] = json.load(open(notes))
     except Exception as e:
         meta["agent_notes"] = {"error": f"notes unreadable: {e}"}
-    rc, o = sh(f"git -C /repo worktree add --detach {wt} HEAD -q")
+    rc, o = sh(f"git -C /repo worktree add --detach {wt} {a.base} -q")
     assert rc == 0, o
+    meta["base"] = sh(f"git -C {wt} rev-parse --short HEAD")[1].strip()
+    if a.note:
+        meta["note"] = a.note
     try:
         env = {"PYTHONPATH": f"{wt}/src"}
         shutil.copy(demo, os.path.join(wt, "seed_demo.py"))
